@@ -27,8 +27,15 @@ def is_scalar(x):
     return isinstance(x, (Poly, Cond, int, float, Fraction, bool))
 
 
+DIM_ASSUME = [None]   # hook: callable(a, b) -> True if the current path assumes a == b
+
+
 def dim_eq(a, b):
-    return T.equal(P(a), P(b))
+    a, b = P(a), P(b)
+    if T.equal(a, b):
+        return True
+    h = DIM_ASSUME[0]
+    return bool(h and h(a, b))
 
 
 def is_one(d):
